@@ -107,6 +107,8 @@ def boot():
             if fmt == '%s in %s.%s:' and len(a) == 3 and a[2] == 'feedMsg':
                 b.excs.append(sys.exc_info()[0].__name__ if sys.exc_info()[0] else '?')
         b.log.exception = rec
+        b.cafile = os.path.join(b.dir, 'ca.pem'); open(b.cafile, 'w').write('-----BEGIN CERTIFICATE-----\nAAAA\n-----END CERTIFICATE-----\n')
+        b.cadir = os.path.join(b.dir, 'ca.d'); os.makedirs(b.cadir, exist_ok=True)
         b.keyfile = os.path.join(b.dir, 'ecdsa.pem')
         # a key path that exists but cannot be opened (OSError at challenge time), and one that opens but is no key (ValueError)
         b.keydir = os.path.join(b.dir, 'ecdsa-key.d'); os.makedirs(b.keydir, exist_ok=True)
@@ -128,7 +130,7 @@ DEFAULT_CFG = {
     'alternates': ['%s`', '%s_'], 'mechs': [], 'sasluser': '', 'saslpass': '', 'ecdsakey': '',
     'certfile': False, 'required': False, 'joins': False,
     'scram': False, 'scramhashes': ['SHA-1', 'SHA-256'], 'scramfirst': 'n,,n=u,r=cnonce', 'scramfinal': 'c=biws,r=cnoncesnonce,p=proof', 'scramfinish': 0,
-    'ssl': False, 'certvalidation': False, 'verifycerts': False, 'forced': False,
+    'ssl': False, 'certvalidation': False, 'verifycerts': False, 'forced': False, 'cafile': '',
     'host': SERVER, 'port': 6667, 'policies': {}, 'lastdisc': {}, 'now': 100000,
 }
 
@@ -156,6 +158,7 @@ def apply_cfg(b, c, fresh=True):
     net.channels.setValue(['#vt'] if c['joins'] else [])
     net.ssl.setValue(bool(c['ssl']))
     conf.supybot.protocols.ssl.verifyCertificates.setValue(bool(c['verifycerts']))
+    net.ssl.authorityCertificate.setValue({'': '', 'file': b.cafile, 'dir': b.cadir}[c['cafile']])
     if fresh:
         b.irclib.Irc.REQUEST_CAPABILITIES.discard('sasl')  # class level: nothing may ever add it there
     if c['scram']:
@@ -352,7 +355,11 @@ class FakeSocket(object):
         self.tls = None
         self.port = None
     def settimeout(self, t): pass
-    def connect(self, addr): self.port = addr[1]
+    def connect(self, addr):
+        self.port = addr[1]
+        if self.w.fail_next > 0:
+            self.w.fail_next -= 1
+            raise _socket.error(111, 'Connection refused')
     def send(self, data):
         if self._closed:
             raise _socket.error(9, 'Bad file descriptor')
@@ -389,12 +396,42 @@ class NetWorld(object):
         w = self
         def getSocket(address, port=None, **kw):
             s = FakeSocket(w); w.socks.append(s); return s
-        def wrap(conn, hostname=None, logger=None, certfile=None, verify=None, trusted_fingerprints=None, ca_file=None, **kw):
-            conn.tls = {'verify': bool(verify)}
-            return conn
+        # the real utils.net.ssl_wrap_socket runs, over a stand-in for the ssl module: what it decides (CA file, CA
+        # directory, CERT_NONE, fingerprint check) is recorded on the socket; TLS itself is outside
+        import ssl as _ssl
+        class FakeCtx(object):
+            def __init__(self, **kw):
+                self.kw = kw; self.check_hostname = True; self.verify_mode = _ssl.CERT_REQUIRED; self.ca = None
+            def load_verify_locations(self, cafile=None, capath=None, cadata=None):
+                if cafile is not None and os.path.isdir(cafile):
+                    raise IsADirectoryError(21, 'Is a directory', cafile)
+                if cafile is not None and not os.path.exists(cafile):
+                    raise FileNotFoundError(2, 'No such file or directory', cafile)
+                self.ca = cafile or capath
+            def load_cert_chain(self, certfile, *a, **k):
+                pass
+            def wrap_socket(self, conn, server_hostname=None, **k):
+                conn.tls = {'verify': None, 'required': self.verify_mode != _ssl.CERT_NONE, 'fp': False,
+                            'ca': self.ca, 'capath': self.kw.get('capath')}
+                return conn
+        class SslProxy(object):
+            def create_default_context(self, *a, **kw):
+                return FakeCtx(**kw)
+            def __getattr__(self, n):
+                return getattr(_ssl, n)
+        utils.net.ssl = SslProxy()
+        def check_fp(conn, fps):
+            conn.tls['fp'] = True
+        utils.net.check_certificate_fingerprint = check_fp
+        real_wrap = utils.net.ssl_wrap_socket
+        def wrap(conn, *a, **kw):
+            c2 = real_wrap(conn, *a, **kw)
+            c2.tls['verify'] = bool(kw.get('verify', True))
+            return c2
         utils.net.getSocket = getSocket
         utils.net.getAddressFromHostname = lambda h, attempt=0: '192.0.2.1'
         utils.net.ssl_wrap_socket = wrap
+        self.fail_next = 0; self.effective = []
         self.pending = None
         def select(r, wl, x, t=None):
             # a chunk waiting for delivery goes to the socket the driver is polling now
@@ -412,10 +449,14 @@ class NetWorld(object):
             if len(w.socks) > before and self_.connected:
                 c = self_.conn
                 w.events.append(('connected', tuple(self_.currentServer), c.tls is not None, bool(c.tls and c.tls['verify'])))
+                # was the peer's certificate really going to be checked (CA verification or fingerprint)?
+                w.effective.append((tuple(self_.currentServer), bool(c.tls and (c.tls['required'] or c.tls['fp'])), dict(c.tls or {})))
+            elif len(w.socks) > before:
+                w.events.append(('connectfailed', tuple(self_.currentServer)))
             return r
         S.SocketDriver.reconnect = reconnect
     def reset(self):
-        self.nsock = 0; self.sent = []; self.events = []; self.socks = []
+        self.nsock = 0; self.sent = []; self.events = []; self.socks = []; self.fail_next = 0; self.effective = []
         self.S.SocketDriver._instances[:] = []
         del self.D._newDrivers[:]
 
@@ -431,6 +472,8 @@ def tok_event(e):
         return tok_call(e)
     if e[0] == 'closed':
         return 'X'
+    if e[0] == 'connectfailed':
+        return 'F:' + enc_server(e[1])
     return 'C:%s:%d:%d' % (enc_server(e[1]), 1 if e[2] else 0, 1 if e[3] else 0)
 
 class RealRun(object):
@@ -442,7 +485,7 @@ class RealRun(object):
         self.w.reset()
         self.cfg = cfg
         c = full_cfg(cfg)
-        c['certvalidation'] = bool(c['verifycerts'] or c.get('fingerprints'))
+        c['certvalidation'] = bool(c['verifycerts'] or c.get('fingerprints') or c['cafile'])
         apply_cfg(self.b, c)
         net = self.b.conf.supybot.networks.test
         self.servers = [tuple(x) for x in (c.get('servers') or [(SERVER, 6667)])]
@@ -472,6 +515,18 @@ class RealRun(object):
             tr.append(('reset',))
             return reset()
         irc.feedMsg = feedMsg; irc.reset = reset_
+
+    def fail(self, n):
+        """the next n connection attempts are refused"""
+        if getattr(self, 'crashed', None):
+            return self.obs[-1]
+        self.ops.append(('fail', n))
+        self.lines.append('fail\t%d' % n)
+        self.w.fail_next = n
+        o = self._observe()
+        o.x['crash'] = None
+        self.obs.append(o)
+        return o
 
     def restart(self, now):
         """the bot is stopped and started again: the networks database (STS policies, disconnection times) is
@@ -557,12 +612,12 @@ class RealRun(object):
         o.ls = dict(ls); o.req = set(st.capabilities_req); o.ack = set(st.capabilities_ack); o.nak = set(st.capabilities_nak)
         o.auth = irc.sasl_authenticated; o.after = irc.afterConnect; o.exc = exc
         o.wanted = set(irc.REQUEST_CAPABILITIES)
-        o.x = {'wire': list(w.sent), 'events': list(w.events), 'policies': dict(net.stsPolicies),
+        o.x = {'effective': list(w.effective), 'wire': list(w.sent), 'events': list(w.events), 'policies': dict(net.stsPolicies),
                'lastdisc': dict(net.lastDisconnectTimes), 'connected': drv.connected, 'sock': w.nsock,
                'current': tuple(drv.currentServer), 'inbuffer': bytes(drv.inbuffer), 'queued': queued,
                'trace': list(self.trace)}
         del self.trace[:]
-        w.sent = []; w.events = []
+        w.sent = []; w.events = []; w.effective = []
         return o
 
     def start(self):
@@ -746,6 +801,13 @@ def real_oracle(run):
         x = o.x
         if op[0] == 'restart':
             success = False; pending_upgrade = None
+        if op[0] == 'fail':
+            continue
+        # --- a connection the bot takes for verified TLS (forced by a policy, or ssl with a validation of the operator's
+        # own) was set up so that the certificate is really checked: CA verification or a fingerprint check
+        for srv, eff, info in x['effective']:
+            if (srv[3] or (c['ssl'] and certval)) and not eff:
+                bad.append(('forced_tls_verified', 'connection to %r counts as verified TLS (forced=%s, ssl=%s, certificate validation configured=%s) but the TLS context checks nothing: %r' % (srv, srv[3], c['ssl'], certval, info)))
         if x.get('crash'):
             bad.append(('driver_crash', 'SocketDriver / SocketDriver.run() raised %s (drivers.run would remove the driver for good); stored policies: %r' % (x['crash'], x['policies'])))
         # --- sasl.required on the wire ("succeeded" = 903 received inside a SASL exchange, this epoch)
@@ -805,6 +867,15 @@ def real_oracle(run):
         for e in x['events']:
             if e[0] == 'closed':
                 lastdisc[cur_host] = x['now']
+            if e[0] == 'connectfailed':
+                cur_host = e[1][0]
+                if pending_upgrade is not None:
+                    # the upgrade was attempted (and refused): it must have been to the policy's port, forced
+                    if not (e[1][1] in pending_upgrade and e[1][3]):
+                        bad.append(('sts_insecure_upgrade', 'after an STS policy with port %r on an insecure connection the next connection attempt is %r' % (sorted(pending_upgrade), e[1])))
+                    pending_upgrade = None
+                elif x['policies'] == before['policies']:
+                    _check_applied(bad, c, ('connected', e[1], True, True), before['policies'], lastdisc, x['now'], True)
             if e[0] == 'connected':
                 cur_host = e[1][0]
                 if pending_upgrade is not None:
@@ -818,7 +889,7 @@ def real_oracle(run):
                     if x['policies'] == before['policies']:
                         _check_applied(bad, c, e, before['policies'], lastdisc, x['now'], certval)
         # --- STS seen on the connection the chunk arrived on
-        if dl is not None and before['connected'] and dl[0] == x['sock'] - len([e for e in x['events'] if e[0] == 'connected']):
+        if dl is not None and before['connected'] and dl[0] == x['sock'] - len([e for e in x['events'] if e[0] in ('connected', 'connectfailed')]):
             cur = before['current']
             secure = bool(cur[3] or (c['ssl'] and certval))
             ports = []
@@ -922,6 +993,8 @@ def gen_real_cfg(r):
     c['verifycerts'] = r.random() < 0.4
     if r.random() < 0.3:
         c['fingerprints'] = True
+    if r.random() < 0.25:
+        c['cafile'] = r.choice(['file', 'file', 'dir'])
     # the configured host name: also mixed case / trailing dot (the STS store is keyed by exactly this string);
     # the configured port: also the very port a stored policy names
     host = r.choice([SERVER, SERVER, 'Irc.Test', 'IRC.Example.COM', 'irc.test.'])
@@ -954,6 +1027,8 @@ def script_real(r, cfg, n):
                 lines.append(r.choice(['ERROR :Closing link: (bye)', 'ERROR :You are connecting too fast', S + 'PING :vt']))
             else:
                 lines.append(gen_adv_line(r, run.obs[-1]))
+        if r.random() < 0.15:
+            run.fail(r.choice([1, 1, 2, 3]))
         run.run(now, r.random() < 0.6, lines, 'PARTIAL' if r.random() < 0.1 else None)
         if r.random() < 0.12:
             now += r.choice([1, 60, 2000])
@@ -991,6 +1066,8 @@ def run_real(cfg, ops):
             run.start()
         elif op[0] == 'restart':
             run.restart(op[1])
+        elif op[0] == 'fail':
+            run.fail(op[1])
         else:
             run.run(op[1], op[2], op[3], op[4] if len(op) > 4 else None)
     run.close()
@@ -1009,7 +1086,7 @@ def cfg_line(cfg, real=False, servers=()):
          'mechanisms:' + wire.enc_list(c['mechs']), 'sasluser:' + wire.enc(c['sasluser']), 'saslpass:' + wire.enc(c['saslpass']),
          'ecdsakey:' + wire.enc(c['ecdsakey']), 'ecdsaok:' + B(c['ecdsakey'] == 'ok'), 'certfile:' + B(c['certfile']),
          'required:' + B(c['required']), 'joins:' + B(c['joins']), 'crypto:' + B(b.has_crypto), 'real:' + B(real),
-         'ssl:' + B(c['ssl']), 'certvalidation:' + B(c['certvalidation']), 'verifycerts:' + B(c['verifycerts']),
+         'ssl:' + B(c['ssl']), 'certvalidation:' + B(c['certvalidation']), 'verifycerts:' + B(c['verifycerts']), 'tlsfails:' + B(c['cafile'] == 'dir'),
          'servers:' + (','.join(srv(*s) for s in servers) if servers else '-'),
          'scram:' + B(c['scram']), 'scramhashes:' + wire.enc_list(c['scramhashes']), 'scramfirst:' + wire.enc(c['scramfirst']),
          'scramfinal:' + wire.enc_opt(c['scramfinal']), 'scramfinish:%d' % c['scramfinish'],
